@@ -1,22 +1,50 @@
 package runtime
 
-// vWriter is a strWriter that records what is written.
+import "errors"
+
+// vWriter is an io.Writer / strWriter that records what is written and can be
+// told to fail at the k-th write.
 type vWriter struct {
-	buf    []byte
-	writes int
+	buf      []byte
+	writes   int
+	failAt   int // 1-based index of the write that fails; 0 = never
+	err      error
+	after    int // writes attempted after the failing one
+	accepted int // bytes accepted before the failure
 }
 
 func (w *vWriter) Write(b []byte) (int, error) {
 	w.writes++
+	if w.failAt > 0 && w.writes == w.failAt {
+		return 0, w.err
+	}
+	if w.failAt > 0 && w.writes > w.failAt {
+		w.after++
+		return 0, w.err
+	}
 	w.buf = append(w.buf, b...)
 	return len(b), nil
 }
 
 func (w *vWriter) WriteString(s string) (int, error) {
 	w.writes++
+	if w.failAt > 0 && w.writes == w.failAt {
+		return 0, w.err
+	}
+	if w.failAt > 0 && w.writes > w.failAt {
+		w.after++
+		return 0, w.err
+	}
 	w.buf = append(w.buf, s...)
 	return len(s), nil
 }
+
+var vErrWrite = errors.New("verif: writer failed")
+
+// vStringer is an untrusted value: a fmt.Stringer whose text is arbitrary.
+type vStringer struct{ s string }
+
+func (v vStringer) String() string { return v.s }
 
 func vhexval(c byte) int {
 	switch {
@@ -28,4 +56,70 @@ func vhexval(c byte) int {
 		return int(c-'A') + 10
 	}
 	return -1
+}
+
+func visHex(c byte) bool {
+	return vor(vor(vand('0' <= c, c <= '9'), vand('a' <= c, c <= 'f')), vand('A' <= c, c <= 'F'))
+}
+
+// vcontains reports, without branching on the bytes, whether b contains c.
+func vcontains(b []byte, c byte) bool {
+	r := false
+	for i := 0; i < len(b); i++ {
+		r = vor(r, b[i] == c)
+	}
+	return r
+}
+
+// vref_htmlDecode decodes the character references HTML defines for the
+// escapers' output: decimal numeric references and the named references
+// amp, lt, gt, quot, apos. Any other use of '&' is reported as malformed, so a
+// raw '&' that survived escaping is caught.
+func vref_htmlDecode(b []byte) (out []byte, ok bool) {
+	for i := 0; i < len(b); {
+		c := b[i]
+		if c != '&' {
+			out = append(out, c)
+			i++
+			continue
+		}
+		j := i + 1
+		for j < len(b) && b[j] != ';' && j-i < 8 {
+			j++
+		}
+		if j >= len(b) || b[j] != ';' {
+			return out, false
+		}
+		name := string(b[i+1 : j])
+		switch name {
+		case "amp":
+			out = append(out, '&')
+		case "lt":
+			out = append(out, '<')
+		case "gt":
+			out = append(out, '>')
+		case "quot":
+			out = append(out, '"')
+		case "apos":
+			out = append(out, '\'')
+		default:
+			if len(name) < 2 || name[0] != '#' {
+				return out, false
+			}
+			v := 0
+			for k := 1; k < len(name); k++ {
+				d := name[k]
+				if d < '0' || d > '9' {
+					return out, false
+				}
+				v = v*10 + int(d-'0')
+			}
+			if v == 0 || v > 255 {
+				return out, false
+			}
+			out = append(out, byte(v))
+		}
+		i = j + 1
+	}
+	return out, true
 }
